@@ -1,8 +1,8 @@
 package hk
 
 import (
-	"errors"
 	"fmt"
+	"io"
 
 	"github.com/pion/interceptor"
 	"github.com/pion/interceptor/vsched"
@@ -11,7 +11,8 @@ import (
 )
 
 // ErrInjected is the sentinel error injected into the mock transport.
-var ErrInjected = errors.New("verif: injected transport error")
+// It wraps io.ErrClosedPipe, what a closed transport returns: code that singles that error out is exercised too.
+var ErrInjected = fmt.Errorf("verif: injected transport error: %w", io.ErrClosedPipe)
 
 // RTPRec is one packet that reached the innermost RTP writer (deep copy at call time).
 type RTPRec struct {
@@ -57,6 +58,9 @@ type rtpSink struct {
 
 //go:norace
 func (s *rtpSink) Write(h *rtp.Header, payload []byte, _ interceptor.Attributes) (int, error) {
+	// a write to the transport is an observable event: other threads may run before it (a lock released just
+	// before the write, for instance, may let a Close complete first)
+	vsched.Yield()
 	t := s.t
 	t.Attempts++
 	if t.FailAllRTP {
@@ -78,6 +82,7 @@ type rtcpSink struct{ t *Transport }
 
 //go:norace
 func (s *rtcpSink) Write(pkts []rtcp.Packet, _ interceptor.Attributes) (int, error) {
+	vsched.Yield() // an observable event, see rtpSink.Write
 	t := s.t
 	if t.FailRTCP {
 		return 0, ErrInjected
